@@ -579,6 +579,13 @@ pub fn listen<S: ?Sized + AsRef<str>, H: crate::ConnectionHandler + Send + Sync 
             .map(|_| 100)
             .unwrap_or(to_wait);
         let mut stream = loop {
+            // look at the stop flag before every accept, not only when accept
+            // timed out: a steady stream of connections must not keep us going
+            if let Some(stop) = listen_config.stop_listening.as_ref() {
+                if stop.load(Ordering::SeqCst) {
+                    return Ok(());
+                }
+            }
             match listener.accept(wait_time) {
                 Err(e) => match e.kind() {
                     ErrorKind::Timeout => {
